@@ -192,6 +192,75 @@ harnesses! {
 
 
 
+
+    // ---- thorough: two successive symbolic steps (each: setter with any accepted value + call)
+    #[kani::unwind(10)]
+    fn c03_ffo_two_steps(nd) {
+        let mut r = FastFixedOut::<f64>::new(1.0, 2.0, PolynomialDegree::Nearest, 2, 1).unwrap();
+        let mut pos = 0usize;
+        let mut xin = [0.0f64; 12];
+        let mut out = [0.0f64; 4];
+        warm!(nd, r, pos, xin, out, true, "base", 1.0, 1);
+        let _ = sym_step!(nd, r, pos, xin, out, true, "base", full);
+        let _ = sym_step!(nd, r, pos, xin, out, true, "base", full);
+        forget(r);
+    }
+    #[kani::unwind(10)]
+    fn c03_sfo_two_steps(nd) {
+        probe::reset_flags();
+        let mut r = SincFixedOut::<f64>::new_with_interpolator(1.0, 2.0, SincInterpolationType::Nearest, probe::boxed64(8, 1), 2, 1).unwrap();
+        let mut pos = 0usize;
+        let mut xin = [0.0f64; 12];
+        let mut out = [0.0f64; 4];
+        warm!(nd, r, pos, xin, out, true, "base", 1.0, 1);
+        let _ = sym_step!(nd, r, pos, xin, out, true, "base", full);
+        let _ = sym_step!(nd, r, pos, xin, out, true, "base", full);
+        probe_checks!("base");
+        forget(r);
+    }
+    #[kani::unwind(12)]
+    fn c03_ffi_two_steps(nd) {
+        let mut r = FastFixedIn::<f64>::new(1.0, 2.0, PolynomialDegree::Nearest, 2, 1).unwrap();
+        let mut pos = 0usize;
+        let mut xin = [0.0f64; 4];
+        let mut out = [0.0f64; 16];
+        warm!(nd, r, pos, xin, out, false, "base", 1.0, 4);
+        let _ = sym_step!(nd, r, pos, xin, out, false, "base", grid);
+        let _ = sym_step!(nd, r, pos, xin, out, false, "base", grid);
+        forget(r);
+    }
+
+
+    // ---- reset() in the history: lowered ratio, call, reset, then a symbolic step and a second call
+    #[kani::unwind(44)]
+    fn c03_ffo_reset_step(nd) {
+        let mut r = FastFixedOut::<f64>::new(1.0, 2.0, PolynomialDegree::Nearest, 2, 1).unwrap();
+        let mut pos = 0usize;
+        let mut xin = [0.0f64; 12];
+        let mut out = [0.0f64; 4];
+        warm!(nd, r, pos, xin, out, true, "base", 0.5, 1);
+        r.reset();
+        let _ = sym_step!(nd, r, pos, xin, out, true, "base", grid);
+        let o = call1(nd, &mut r, &mut pos, 0, 0, &mut xin, &mut out);
+        obs_checks!(o, true, "base");
+        forget(r);
+    }
+    #[kani::unwind(44)]
+    fn c03_sfo_reset_step(nd) {
+        probe::reset_flags();
+        let mut r = SincFixedOut::<f64>::new_with_interpolator(1.0, 2.0, SincInterpolationType::Nearest, probe::boxed64(8, 1), 2, 1).unwrap();
+        let mut pos = 0usize;
+        let mut xin = [0.0f64; 12];
+        let mut out = [0.0f64; 4];
+        warm!(nd, r, pos, xin, out, true, "base", 0.5, 1);
+        r.reset();
+        let _ = sym_step!(nd, r, pos, xin, out, true, "base", grid);
+        let o = call1(nd, &mut r, &mut pos, 0, 0, &mut xin, &mut out);
+        obs_checks!(o, true, "base");
+        probe_checks!("base");
+        forget(r);
+    }
+
     // ---- three successive ratio changes on tiny chunks (each setter recomputes the input need)
     #[kani::unwind(10)]
     fn c03_ffo_three_changes(nd) { ffo!(nd, f64, PolynomialDegree::Linear, 3, 2.0, 14, 5, "base", grid, [(1.0, 1), (1.25, 1), (1.25, 1)]); }
